@@ -1,16 +1,26 @@
 """C13 — schema validation rejects every structurally invalid message.
 
-Tie to the code:
+Tie to the code (every run, against VERIF_REPO's current working tree):
   * the same regenerated tables as C12 (coq/Gen/SchemaTables.v) + validate.VALIDATOR keys; the kernel
-    computes which declared type names valid() cannot resolve and which enumerations
-    validate_value_type never tests (Props/C13.v) - each such row is replayed here;
-  * correspondence real valid_instance()/verify() vs Model.Validate on: for every class the minimal
-    valid instance, every required attribute missing / empty, every typed attribute and typed text
-    with a valid and an invalid sample, every cardinality bound violated, the verify() overrides'
-    own conditions, and the same violated instances nested under each parent class;
-  * primitive validators against clear-cut lexical samples;
-  * implementation-level oracle: violated => valid_instance raises, unviolated => it does not.
+    decides for ALL rows that every declared type name resolves to the validator of that type and
+    that every enumeration is tested (Props/C13.v); a row that fails is replayed here on the code;
+  * correspondence of the real code with Model.Validate on
+      - prim   : every primitive validator that is modelled in Gallina (integer kinds with all range
+                 edges, string kinds, name tokens, language, boolean, domain name) on edge values;
+      - valid  : validate.valid(typ, v) for every declared type name and spelling variants of it;
+      - vvt    : validate.validate_value_type on every declared c_value_type and synthetic ones;
+      - valid_instance / verify : for every class the minimal valid instance, every required
+                 attribute missing / empty, every typed attribute and typed text with valid and
+                 invalid samples, every cardinality bound from below, at and above, the verify()
+                 overrides' own conditions, and the violated instances nested under each parent
+                 class (in a list: first, middle and last position);
+      - spec   : the executable hypotheses of the theorems (has_violation / goodb) against what the
+                 generator says it built;
+  * implementation-level oracle: violated => valid_instance raises, unviolated => it does not;
+    clear-cut lexical samples per validator; the non-vacuity examples of Props/C13.v; a list of
+    constraints the SAML 2.0 core / metadata schemas impose (SPEC_ANCHORS).
 """
+import os
 import re
 
 import core
@@ -21,67 +31,142 @@ from core import Exn, call, cstr
 from schema_gen import obj_to_coq
 
 CLAIM = {
-    "text": "Coq theorems (Props/C13.v) about a model of validate.valid_instance / validate_value_type / valid and the five verify() overrides over the regenerated schema tables, for EVERY schema, primitive-validator function and instance tree (unbounded depth, induction over the reachability relation / instance trees): if any sub-instance reachable through declared child members has a required attribute missing or empty, a child count outside its c_cardinality min/max, or an attribute / text value that the primitive validator of its (resolvable) declared type or its string enumeration rejects, validation raises (C13_rejects, for obj.verify() and valid_instance(obj)); if every reachable node satisfies its constraints, all type names resolve and the overrides' own conditions hold, validation succeeds (C13_accepts). Kernel-evaluated on today's tables: which (class, attribute) type names do not resolve in VALIDATOR and which enumerations are never tested (C13_types_resolve, C13_enumerations_enforced: exactly the rows recorded as findings), verify() overrides are the five modelled ones. Tie: per-constraint correspondence with the real valid_instance over all classes, at the root and nested under each parent.",
-    "note": "Trusted: Coq kernel + vm_compute; translator; the model is hand-written and tested per constraint on every run. Primitive lexical validators (dateTime, duration, integer kinds, base64Binary, IP address, domain name) are a function parameter in the theorems; in the correspondence they are a table of clear-cut samples whose verdicts are checked against the real functions; boolean / string / the always-true validators (ID, NCName, QName, anyType, anyURI) are defined in Gallina. str.strip() is modelled for ASCII white space. Findings on the unchanged tree (recorded): 135 (class, attribute) pairs whose type name valid() cannot resolve (a VALID value raises KeyError), 36 enumerations never tested (24 raise KeyError on any value, 12 accept any value), 5 value types with an unresolvable base, and SubjectLocality.verify() rejecting every DNSName (broken regular expression). c_value_type maxlen is never enforced (outside the statement). Occurrence bounds are c_cardinality entries only; a single-valued child without an entry (Assertion.issuer, Response.status) is not checked.",
-    "technique": "machine-checked proof (Coq, induction over instance trees) + regenerated-table obligations + per-constraint model/implementation correspondence",
+    "text": "Coq theorems (Props/C13.v) about a model of validate.valid_instance / validate_value_type / valid and the five verify() overrides over the regenerated schema tables, for EVERY schema, VALIDATOR key list, primitive-validator function and instance tree (unbounded depth, induction over the reachability relation / instance trees): if any sub-instance reachable through declared child members has a required attribute missing or empty, a child count outside its c_cardinality min/max, or an attribute / text value refused by the primitive validator its declared type name resolves to, by its enumeration, or by its list member type, then valid_instance(root) and root.verify() raise (C13_rejects, C13_rejects_actual, C13_rejects_decided); if every node satisfies its constraints with resolving types and the overrides' own conditions hold, both succeed (C13_accepts, C13_accepts_decided); the two sides are exclusive. Kernel-evaluated on today's tables for ALL rows, no exception list: every declared attribute type / value-type base / list member resolves - a name that is an XSD built-in type to the VALIDATOR key of that very type, any other name to string (C13_types_resolve, C13_value_types_resolve), valid() never raises KeyError for any type name (C13_valid_never_keyerror), every declared enumeration is decided by membership alone whatever its base (C13_enumerations_enforced), so no typed or enumerated attribute value escapes (C13_no_typed_value_escapes, C13_no_enumerated_value_escapes); the verify() overrides are the five modelled ones. Non-vacuity: a Response and an EntityDescriptor read back from real objects satisfy `good`, 13 single-constraint mutations of them 1-3 levels down have a reachable violation. The model follows validate.py WITH the repairs proposed_fix/C13-1..3; *_before_fix_refuted theorems keep the failures of the earlier code.",
+    "note": "Trusted: Coq kernel + vm_compute; translator; the model is hand-written and tested per constraint on every run (units prim, valid, vvt, valid_instance_spec, verify). In the theorems the primitive lexical validators are a function parameter; in the correspondence boolean, the string kinds, the 13 integer kinds (python int() grammar: blanks, sign, single underscores; ASCII digits only), NMTOKEN(S), language and valid_domain_name (regular expressions through a derivative matcher) are Gallina definitions compared with the real functions on edge values, while dateTime, duration, base64Binary, anyURI and IP address are a table of clear-cut samples whose verdicts are checked against the real functions. str.strip() / str.lower() are modelled for ASCII. ONLY TESTED, not proved: agreement of model and code; the constraints taken from the SAML 2.0 schemas (SPEC_ANCHORS); that the SP / IdP entry points run the validation on what they parse (23 violated messages through parse_authn_request_response / parse_authn_request). c_value_type maxlen is never enforced (outside the statement). Occurrence bounds are c_cardinality entries only; a single-valued child without an entry (Assertion.issuer, Response.status) is not checked. The committed check expects /repo + proposed_fix/C13-1.diff, C13-2.diff, C13-3.diff (on the unrepaired tree it reports the 177 former findings as violations).",
+    "technique": "machine-checked proof (Coq, induction over instance trees) + regenerated-table obligations over all rows + per-constraint model/implementation correspondence",
 }
 TRUSTED = [
-    "harness/translate_schema.py (tables, VALIDATOR keys, verify() owners); the primitive-sample table (harness/props/c13.py SAMPLES) whose verdicts are compared with the real validator functions on every run",
-    "modelled: validate.valid_instance, _valid_instance, validate_value_type, valid, SamlBase.verify and the overrides of AttributeValueBase, SubjectLocality, AuthnContextType_, ConditionsType_, AssertionType_",
+    "harness/translate_schema.py (tables, VALIDATOR keys, verify() owners, the example objects); the primitive-sample table (harness/props/c13.py SAMPLES) whose verdicts are compared with the real validator functions on every run",
+    "modelled: validate.valid_instance, _valid_instance, validate_value_type, valid / validator_of, the integer / string-kind / name-token / language validators, valid_domain_name, SamlBase.verify and the overrides of AttributeValueBase, SubjectLocality, AuthnContextType_, ConditionsType_, AssertionType_",
 ]
 ASSUMPTIONS = [
-    "declared occurrence bounds = c_cardinality entries; the parser keeps only the last of a duplicated single-valued child, so validation never sees the duplicate (C12 model)",
-    "values of non-lexical-rule types are drawn from the sample table only; text padding is ASCII white space",
+    "declared occurrence bounds = c_cardinality entries; the parser keeps only the last of a duplicated single-valued child, so validation never sees the duplicate (C12 model); a single-valued member holding a list is what 'more than max' means for max = 1",
+    "values of the table-backed types (dateTime, duration, base64Binary, anyURI, IP address) are drawn from the sample table only; text padding is ASCII white space; type names are ASCII",
 ]
-RULE = ("for every class: minimal valid instance; each required attribute missing and empty; each attribute / text of a typed kind with a valid and an invalid "
-        "sample; each c_cardinality bound violated from below and above; override conditions; each violated instance also nested under every parent class "
-        "(quick: one violated + the valid child per parent/child row; thorough: all). Non-trivial = exactly one constraint violated (distinct by class, constraint, nesting)")
+RULE = ("for every class: minimal valid instance; each required attribute missing and empty; each attribute / text of a typed kind with valid and invalid "
+        "samples (text also padded); each c_cardinality bound violated from below, met exactly and exceeded; override conditions; each violated instance also nested "
+        "under every parent class, in list members at the first, middle and last position (quick: one violated + the valid child per parent/child row; thorough: all); "
+        "classes without a constraint of their own with a violation further down; random two-level chains; a share of the root variants again with ignorable decoration. "
+        "Non-trivial = exactly one constraint violated (distinct by class, constraint, nesting)")
 
 IMPORTS = "Model.Schema Model.Validate Gen.SchemaTables"
+# the statement says that validation FAILS, not with which exception class: accepted / raises is compared;
+# C13_EXACT=1 compares the classes too (they agree today)
+EXACT = os.environ.get("C13_EXACT") == "1"
+SHOW = "show_unit" if EXACT else "show_unit_coarse"
+
+INT_RANGES = {
+    "integer": (None, None), "nonNegativeInteger": (0, None), "PositiveInteger": (1, None), "unsignedShort": (0, 65535),
+    "nonPositiveInteger": (None, 0), "negativeInteger": (None, -1), "long": (-2 ** 63, 2 ** 63 - 1), "int": (-2 ** 31, 2 ** 31 - 1),
+    "short": (-2 ** 15, 2 ** 15 - 1), "byte": (-128, 127), "unsignedLong": (0, 2 ** 64 - 1), "unsignedInt": (0, 2 ** 32 - 1),
+    "unsignedByte": (0, 255),
+}
+
+
+def _int_samples(lo, hi):
+    good = [str(hi if hi is not None else 7), str(lo if lo is not None else -3)]
+    bad = ([str(hi + 1)] if hi is not None else []) + ([str(lo - 1)] if lo is not None else []) + ["x1", "1.5", "seven"]
+    return good, bad
+
 
 # clear-cut lexical samples: VALIDATOR key -> (valid, invalid)
 SAMPLES = {
-    "dateTime": (["2020-01-01T00:00:00Z", "1999-12-31T23:59:59Z"], ["not-a-date", "2020-13-45T00:00:00Z", "yesterday"]),
-    "boolean": (["true", "false", "0", "1", "TRUE"], ["maybe", "2", "yes"]),
-    "integer": (["7", "-3", "0"], ["x1", "1.5", "seven"]),
-    "nonNegativeInteger": (["0", "5"], ["-1", "x"]),
-    "PositiveInteger": (["3", "1"], ["0", "-3", "x"]),
-    "unsignedShort": (["8", "65535", "0"], ["70000", "-1", "x"]),
-    "duration": (["PT1H", "P1D", "P1Y2M3DT4H5M6S"], ["1 hour", "hour", "xyz"]),
+    "dateTime": (["2020-01-01T00:00:00Z", "1999-12-31T23:59:59Z", "2020-01-01T00:00:00.123Z"],
+                 ["not-a-date", "2020-13-45T00:00:00Z", "yesterday", "2020-01-01", "2020-02-30T00:00:00Z", "2020-01-01T24:00:00Z"]),
+    "boolean": (["true", "false", "0", "1", "TRUE"], ["maybe", "2", "yes", " true", "tru"]),
+    "duration": (["PT1H", "P1D", "P1Y2M3DT4H5M6S"], ["1 hour", "hour", "xyz", "P", "P1H"]),
     "base64Binary": (["aGk=", "aGVsbG8="], ["a", "abc"]),
-    "string": (["x", "é <&>"], ["\x01bad", "a\x00b"]),
-    "anyURI": (["urn:x:y", "https://a.example/b"], []),
+    "string": (["x", "\u00e9 <&>", "a\tb\n"], ["\x01bad", "a\x00b", "a\ufffe", "\x0b"]),
+    "anySimpleType": (["x", "a\tb"], ["\x01bad"]),
+    "anyURI": (["urn:x:y", "https://a.example/b"], ["http://[::1"]),
     "ID": (["id1"], []), "NCName": (["nc1"], []), "QName": (["a:b"], []), "anyType": (["x"], []),
-    "pv:ipaddress": (["1.2.3.4", "::1", "[2001:db8::1]"], ["nonsense", "1.2.3", "300.1.1.1"]),
-    "pv:domainname": ([], ["example.org", "x y", "-"]),      # the implementation's pattern matches no ordinary name (finding)
+    "normalizedString": (["a b", " a  b "], ["a\tb", "a\nb", "a\rb", "\x01"]),
+    "token": (["a b", "ab"], [" a", "a ", "a  b", "a\tb", "a\nb"]),
+    "language": (["en", "en-US", "x-klingon", "abcdefgh-12345678"], ["", "abcdefghi", "en-", "-en", "en--US", "e1", "en_US", "en-123456789", "en US"]),
+    "NMTOKEN": (["abc", "a.b-c:d_1", "1"], ["", "a b", " a", "a\t", "a\nb", "a\rb"]),
+    "NMTOKENS": (["abc", "a b", " a  b\n", "a\tb"], ["", " ", "\t\n", "a\x01"]),
+    "pv:ipaddress": (["1.2.3.4", "::1", "[2001:db8::1]", "192.0.2.7"], ["nonsense", "1.2.3", "300.1.1.1", "example.org"]),
+    "pv:domainname": (["idp.example.org", "localhost", "sp-1.example.org:8443", "EXAMPLE.ORG", "a", "1.2.3.4"],
+                      ["x y", "-", "a..b", ".a", "a.", "a-", "a:", "a:123456", "a:1:2", "a/b", "a.{ 1 }b.com", "host_name", "", "a.b\n", "a--b", "a.-b"]),
 }
-CHECKED = ["dateTime", "boolean", "integer", "nonNegativeInteger", "PositiveInteger", "unsignedShort", "duration", "base64Binary", "string"]
+for _k, (_lo, _hi) in INT_RANGES.items():
+    SAMPLES[_k] = _int_samples(_lo, _hi)
+# validators that are NOT defined in Gallina: the model looks their verdict up in the table
+TABLE_KEYS = ["dateTime", "duration", "base64Binary", "anyURI", "pv:ipaddress"]
+# probe values for validate.valid(typ, .): they tell all validators apart
+PROBES = ["3", "0", "-1", "256", "65536", "a b", "true", "x", "\x01x", "2020-01-01T00:00:00Z", "PT1H", "aGk=", " ", "", "en", "a\tb", "-9223372036854775809"]
 
 
 def regen(ctx):
     translate_schema.regen()
 
 
+def real_prim(k, v):
+    """does the real validator for key k accept v (True / False), or which unexpected exception"""
+    from saml2_tophat import validate
+    if k == "pv:ipaddress":
+        return bool(validate.valid_ipv4(v) or validate.valid_ipv6(v))
+    if k == "pv:domainname":
+        r = call(validate.valid_domain_name, v)
+        if isinstance(r, Exn):
+            return False if r.name == "ValueError" else r
+        return True
+    r = call(validate.VALIDATOR[k], v)
+    if isinstance(r, Exn):
+        return False if r.name == "NotValid" else r
+    return True
+
+
+_TAB = {}
+
+
+def prim_table():
+    """(key, value) -> verdict rows for the table-backed validators: the clear-cut samples (verdict as
+    written in SAMPLES, checked against the code by check_prims) + the probe values (verdict of the
+    real function: these only serve the type-name resolution unit)"""
+    if "rows" in _TAB:
+        return _TAB["rows"]
+    from saml2_tophat import validate
+    rows = {}
+    for k in TABLE_KEYS:
+        good, bad = SAMPLES[k]
+        for v in good:
+            rows[(k, v)] = True
+        for v in bad:
+            rows[(k, v)] = False
+        if k in validate.VALIDATOR:
+            for v in PROBES:
+                if (k, v) not in rows:
+                    rows[(k, v)] = real_prim(k, v) is True
+    _TAB["rows"] = rows
+    return rows
+
+
 def prim_table_coq():
-    rows = []
-    for k, (good, bad) in SAMPLES.items():
-        if k in ("boolean", "string"):
-            continue
-        for v, b in [(x, True) for x in good] + [(x, False) for x in bad]:
-            rows.append("(%s,%s,%s)" % (cstr(k), cstr(v), "true" if b else "false"))
-    return "[" + ";".join(rows) + "]"
+    return "[" + ";".join("(%s,%s,%s)" % (cstr(k), cstr(v), "true" if b else "false") for (k, v), b in prim_table().items()) + "]"
+
+
+MEMBERS = ("x_xsi_nil m_subject m_attribute_statement m_statement m_authn_statement m_authz_decision_statement m_one_time_use "
+           "m_proxy_restriction m_authn_context_decl m_authn_context_decl_ref m_address m_dns_name")
 
 
 def model_expr(fn):
-    return ("fun i : inst => show_unit (%s (prim_of %s) validator_keys actual_schema x_xsi_nil m_subject m_attribute_statement m_statement "
-            "m_authn_statement m_authz_decision_statement m_one_time_use m_proxy_restriction m_authn_context_decl "
-            "m_authn_context_decl_ref m_address m_dns_name i)" % (fn, prim_table_coq()))
+    return "fun i : inst => %s (%s (prim_of %s) validator_keys actual_schema %s i)" % (SHOW, fn, prim_table_coq(), MEMBERS)
+
+
+def vi_spec_expr():
+    """valid_instance(obj) and, unless the generator makes no claim (9), the executable hypotheses of the
+    theorems: 0 = goodb, 1 = has_violation, 2 = neither"""
+    return ("fun p : inst * Z => let P := prim_of %s in "
+            "VL [%s (valid_instance P validator_keys actual_schema %s (fst p)); "
+            "if (snd p =? 9)%%Z then VZ 9%%Z else show_spec (goodb P validator_keys actual_schema %s (fst p)) (has_violation P validator_keys actual_schema (fst p))]"
+            % (prim_table_coq(), SHOW, MEMBERS, MEMBERS))
 
 
 class Builder(object):
     def __init__(self, T, rng):
         self.T, self.rng = T, rng
-        self.keys = set(T.validator_keys)
+        self.keys = list(T.validator_keys)
         self.parents = {}      # child class id -> [(parent id, member id, islist)]
         for r in T.rows:
             for (_k, m, c, l) in r["children"]:
@@ -89,43 +174,47 @@ class Builder(object):
                     self.parents.setdefault(c, []).append((r["id"], m, l))
 
     def resolve(self, t):
+        """independent restatement of what a type name should select (the statement's reading):
+        no type / unknown name -> string; prefix and case do not matter"""
+        if not t:
+            return "string"
         if t in self.keys:
             return t
-        parts = t.split(":")
-        if len(parts) == 2:
-            t = parts[1]
-        elif t == "":
-            t = "string"
-        return t if t in self.keys else None
+        loc = t.rsplit(":", 1)[-1]
+        if loc in self.keys:
+            return loc
+        for k in self.keys:
+            if k.lower() == loc.lower():
+                return k
+        return "string"
 
     def samples_for_vtype(self, vt):
         """(valid values, invalid values, checked?) for a c_value_type"""
         base, en, member, maxlen = vt
         if maxlen is not None:
             return ["x"], [], False
+        if en is not None:
+            return [en[0], en[-1]], ["not-in-enumeration", en[0] + "x", en[0][:-1] or "y"], True
         if base == "string":
-            if en is not None:
-                return [en[0], en[-1]], ["not-in-enumeration", en[0] + "x"], True
             return SAMPLES["string"][0], SAMPLES["string"][1], True
         if base == "list":
             k = self.resolve(member) if member else None
             g = SAMPLES.get(k, (["x"], []))
-            return [", ".join(g[0][:2])], [g[0][0] + "," + b for b in g[1][:1]], bool(g[1])
-        if en is not None:       # enumeration over another base: never tested (F14)
-            return [en[0]], ["not-in-enumeration"], False
+            return [", ".join(g[0][:2]), g[0][0]], [g[0][0] + "," + b for b in g[1][:1]] + [b + " , " + g[0][0] for b in g[1][:1]], bool(g[1])
         k = self.resolve(base)
         g = SAMPLES.get(k, (["x"], []))
-        return g[0], g[1], k in CHECKED
+        return g[0], g[1], bool(g[1])
 
     def samples_for_attr(self, t):
         if t[0] == "N":
             k = self.resolve(t[1])
             g = SAMPLES.get(k, (["x"], []))
-            return g[0], g[1], k in CHECKED
+            return g[0], g[1], bool(g[1])
         if t[0] == "C":
             vt = self.T.rows[t[1]]["vtype"] or ("string", None, None, None)
             return self.samples_for_vtype(vt)
-        return ["x"], [], False
+        g = SAMPLES["string"]
+        return g[0], g[1], True
 
     def minimal(self, cid, depth=6):
         T = self.T
@@ -148,7 +237,8 @@ class Builder(object):
         return o
 
     def variants(self, cid):
-        """[(kind, member name, violated?, object)] - each differs from the minimal instance in one place"""
+        """[(kind, member name, violated?, object)] - each differs from the minimal instance in one place;
+        deterministic (no random draw), so a replay can rebuild the same list"""
         T = self.T
         row = T.rows[cid]
         out = [("base", "-", False, self.minimal(cid))]
@@ -160,7 +250,7 @@ class Builder(object):
             o.extension_attributes.clear()
             out.append(("av-no-nil", "-", None, o))
             o = cls()
-            o.extension_attributes[schema_gen.XSI_NIL if hasattr(schema_gen, "XSI_NIL") else "{http://www.w3.org/2001/XMLSchema-instance}nil"] = "false"
+            o.extension_attributes["{http://www.w3.org/2001/XMLSchema-instance}nil"] = "false"
             out.append(("av-nil-false", "-", None, o))
             o = cls()
             o.extension_attributes.clear()
@@ -183,7 +273,7 @@ class Builder(object):
                 o = self.minimal(cid)
                 setattr(o, name, v)
                 out.append(("attr-valid", name, False, o))
-            for v in bad[:2]:
+            for v in [b for b in bad if b][:3]:       # an empty value is an absent one
                 o = self.minimal(cid)
                 setattr(o, name, v)
                 out.append(("attr-invalid", name, True if checked else None, o))
@@ -191,31 +281,48 @@ class Builder(object):
             good, bad, checked = self.samples_for_vtype(row["vtype"])
             for v in good[:2]:
                 o = self.minimal(cid)
-                o.text = v if self.rng.random() < 0.5 else " " + v + "\n"
+                o.text = v
                 out.append(("text-valid", "text", False, o))
-            for v in bad[:2]:
+            o = self.minimal(cid)
+            o.text = " " + good[0] + "\n"
+            out.append(("text-valid-padded", "text", False, o))
+            bad = [b for b in bad if b.strip()]
+            for v in bad[:3]:
                 o = self.minimal(cid)
                 o.text = v
                 out.append(("text-invalid", "text", True if checked else None, o))
+            if bad:
+                o = self.minimal(cid)
+                o.text = "\t" + bad[0] + " "
+                out.append(("text-invalid-padded", "text", True if checked else None, o))
         card = {m: (mn, mx) for (m, mn, mx) in row["card"]}
         for (_k, m, c, islist) in row["children"]:
             if c is None or m in row["missing"] or m not in card:
                 continue
             mn, mx = card[m]
             name = T.names[m]
+
+            def with_kids(n, kind, violated):
+                o = self.minimal(cid)
+                kids = [self.minimal(c, 4) for _ in range(n)]
+                if islist or n > 1:
+                    setattr(o, name, kids)          # a list on a single-valued member is how python code exceeds max = 1
+                else:
+                    setattr(o, name, kids[0] if kids else None)
+                out.append((kind, name, violated, o))
             if mn:
                 for n in sorted({0, mn - 1}):
-                    o = self.minimal(cid)
-                    kids = [self.minimal(c, 4) for _ in range(n)]
-                    setattr(o, name, kids if islist else (kids[0] if kids else None))
-                    out.append(("card-below-min", name, True, o))
-            if islist:
-                n = (mx + 1) if mx is not None else max(mn or 0, 1) + 2
-                o = self.minimal(cid)
-                setattr(o, name, [self.minimal(c, 4) for _ in range(n)])
-                out.append(("card-above-max" if mx is not None else "card-many", name, True if mx is not None else False, o))
+                    with_kids(n, "card-below-min", True)
+                with_kids(mn, "card-at-min", False)
+            if mx is not None and mx >= (mn or 0):
+                if mx > 0:
+                    with_kids(mx, "card-at-max", False)
+                with_kids(mx + 1, "card-above-max", True)
+            elif islist:
+                # ConditionsType_.verify has its own "at most one" rule for these two members
+                own = row["verify"] == "saml.ConditionsType_" and name in ("one_time_use", "proxy_restriction")
+                with_kids(max(mn or 0, 1) + 2, "card-many", None if own else False)
         v = row["verify"]
-        nm = lambda s: s
         if v == "saml.AssertionType_":
             o = self.minimal(cid)
             o.subject = None
@@ -250,55 +357,328 @@ class Builder(object):
                 o = self.minimal(cid)
                 o.address = a
                 out.append(("override-locality-address", "address", None, o))
-            for d in SAMPLES["pv:domainname"][1]:
+            for d in SAMPLES["pv:domainname"][0]:
                 o = self.minimal(cid)
                 o.dns_name = d
-                out.append(("override-locality-dns", "dns_name", None, o))
+                out.append(("override-locality-dns", "dns_name", False, o))
+            for d in SAMPLES["pv:domainname"][1]:
+                if not d:
+                    continue
+                o = self.minimal(cid)
+                o.dns_name = d
+                out.append(("override-locality-dns-bad", "dns_name", None, o))
             o = self.minimal(cid)
             o.address = "1.2.3.4"
-            o.dns_name = "example.org"
+            o.dns_name = "x y"
             out.append(("override-locality-both", "address", False, o))
         return out
+
+    def deep_violated(self, cid, per_class, depth=4, seen=()):
+        """(description, instance of class cid with exactly one violated constraint somewhere BELOW it) for a class
+        that has no violated variant of its own - through its first child row that leads to one; None if there is none"""
+        T = self.T
+        row = T.rows[cid]
+        if row["over"] or depth <= 0 or cid in seen:
+            return None
+        for (_k, m, c, islist) in row["children"]:
+            if c is None or m in row["missing"]:
+                continue
+            own = [v for v in per_class[c] if v[2] is True]
+            if own:
+                kind, member, _v, o = own[0]
+                return ("%s.%s>%s:%s.%s" % (T.qname[cid], T.names[m], T.qname[c], kind, member), self.nest(cid, m, islist, o, c, "middle"))
+        for (_k, m, c, islist) in row["children"]:
+            if c is None or m in row["missing"]:
+                continue
+            d = self.deep_violated(c, per_class, depth - 1, seen + (cid,))
+            if d is not None:
+                return ("%s.%s>%s" % (T.qname[cid], T.names[m], d[0]), self.nest(cid, m, islist, d[1], c, "middle"))
+        return None
+
+    def nest(self, pid, m, islist, o, cid, pos):
+        """the parent's minimal instance with o under member m; in a list at position pos of three"""
+        T = self.T
+        prow = T.rows[pid]
+        mn = next((c[1] for c in prow["card"] if c[0] == m), None) or 0
+        p = self.minimal(pid)
+        own = prow["verify"] == "saml.ConditionsType_" and T.names[m] in ("one_time_use", "proxy_restriction")   # at most one, by the override
+        if islist and own:
+            setattr(p, T.names[m], [o])
+        elif islist:
+            n = max(mn, 3)
+            sib = [self.minimal(cid, 4) for _ in range(n - 1)]
+            at = {"first": 0, "middle": (n - 1) // 2 if n > 2 else 0, "last": n - 1}[pos]
+            setattr(p, T.names[m], sib[:at] + [o] + sib[at:])
+        else:
+            setattr(p, T.names[m], o)
+        return p
 
 
 def outcome(r):
     return r if isinstance(r, Exn) else True
 
 
+def obs(r):
+    """the compared observable: True | Exn(class) when C13_EXACT, else True | Exn(raises)"""
+    if isinstance(r, Exn):
+        return r if EXACT else Exn("raises")
+    return True
+
+
+def decorate(T, o):
+    """a copy of o with content validation must ignore: text where the class has no value type, a foreign attribute"""
+    import copy
+    d = copy.deepcopy(o)
+    if not T.rows[T.cid[type(d)]]["vtype"] and not d.text:
+        d.text = "decoration"
+    d.extension_attributes["{urn:pv:foreign}x"] = "1"
+    return d
+
+
+# ---------------------------------------------------------------- primitive validators
+def _fmt_ints(rng):
+    """integer literals around every range edge, in the spellings int() knows"""
+    edges = set()
+    for lo, hi in INT_RANGES.values():
+        for b in (lo, hi):
+            if b is not None:
+                edges.update((b - 1, b, b + 1))
+    edges.update((0, 1, -1, 7, 10 ** 30, -10 ** 30))
+    out = []
+    for n in sorted(edges):
+        out.append(str(n))
+    for n in (0, 5, 255, 256, 65535, 65536, -128, -129):
+        s = str(abs(n))
+        sign = "-" if n < 0 else ""
+        out += [sign + "00" + s, " " + sign + s, sign + s + " ", "\t" + sign + s + "\n", ("+" + s) if n >= 0 else sign + s]
+    out += ["1_000", "1__0", "_1", "1_", "6_5_5_3_5", "6_5_5_3_6", "-_1", "-1_2_8", "-1_2_9", "", " ", "-", "+", "--1", "+-1", "- 1", "0x10", "1.0", "1e3", "1,0",
+            "x", "12a", "a12", "1 2", "+ 1", "0_0", "-0", "+0", "00", "2_5_5", "2_5_6"]
+    for _ in range(60):
+        lo, hi = rng.choice([r for r in INT_RANGES.values() if r != (None, None)])
+        b = rng.choice([x for x in (lo, hi) if x is not None])
+        n = b + rng.choice([-2, -1, 0, 1, 2, rng.randint(-1000, 1000)])
+        s = str(abs(n))
+        if rng.random() < 0.3 and len(s) > 1:
+            i = rng.randint(1, len(s) - 1)
+            s = s[:i] + "_" + s[i:]
+        s = ("-" if n < 0 else rng.choice(["", "", "+"])) + rng.choice(["", "", "0"]) + s
+        out.append(rng.choice(["", "", " "]) + s + rng.choice(["", "", "\n"]))
+    return list(dict.fromkeys(out))
+
+
+def _fmt_strings(rng):
+    out = ["", " ", "  ", "a", "a b", "a  b", " a", "a ", " a ", "a\tb", "a\nb", "a\rb", "\t", "\n", "a b c", "a\x0bb", "a\x0cb", "\x01", "a\x00", "a\x1fb", "a\x7fb",
+           "\u00e9", "\ud7ff", "\ud800", "\udfff", "\ue000", "\ufffd", "\ufffe", "\uffff", "\U00010000", "\U0010ffff", "a\u00a0b", "a\u2003b", "\u3000", "a.b-c:d_1"]
+    alpha = ["a", "Z", "1", " ", " ", "\t", "\n", "\r", "-", ".", ":", "_", "\x01", "\u00e9"]
+    for _ in range(60):
+        out.append("".join(rng.choice(alpha) for _ in range(rng.randint(1, 6))))
+    return list(dict.fromkeys(out))
+
+
+def _fmt_language(rng):
+    out = list(SAMPLES["language"][0] + SAMPLES["language"][1]) + ["a", "abcdefgh", "abcdefgh-a", "a-abcdefgh", "a-abcdefghi", "a-1", "1-a", "a-b-c-d-e", "a-b-", "a--b", "en\n", "\nen", "EN-us", "en-us-", "é", "en-é"]
+    alpha = ["a", "Z", "1", "-", "-", "_", " "]
+    for _ in range(40):
+        out.append("".join(rng.choice(alpha) for _ in range(rng.randint(1, 12))))
+    return list(dict.fromkeys(out))
+
+
+def _fmt_domain(rng):
+    out = list(SAMPLES["pv:domainname"][0] + SAMPLES["pv:domainname"][1]) + [
+        "a.b", "a-b", "a.b.c.d.e", "a:1", "a:12345", "a:123456", "a:", ":1", "a:1a", "a:+1", "a.b:80\n", "\na.b", "a.b:", "A-1.B-2:0", "a_b", "a b", "a..", "-a", "a.-", "a-.b",
+        "é.example", "a.b/c", "a.b/", "http://a.b", "a.b:80/x", "a{b", "{ 1 }", "a.{ 1 }b.co", "a.{ 1 }b.c1m"]
+    alpha = ["a", "Z", "1", ".", ".", "-", ":", "9", " ", "_"]
+    for _ in range(60):
+        out.append("".join(rng.choice(alpha) for _ in range(rng.randint(1, 9))))
+    return list(dict.fromkeys(out))
+
+
 def check_prims(ctx):
-    """the sample table against the real validator functions"""
+    """(1) the clear-cut sample table against the real validator functions (oracle);
+       (2) every Gallina-defined validator against the real function on edge values (correspondence)"""
     from saml2_tophat import validate
     for k, (good, bad) in SAMPLES.items():
+        if not k.startswith("pv:") and k not in validate.VALIDATOR:
+            ctx.oracle_fail("validator-missing:%s" % k, "validate.VALIDATOR has no entry for the XSD built-in type %s" % k, {"unit": "prim", "key": k, "value": (good + bad)[0]})
+            continue
         for v, exp in [(x, True) for x in good] + [(x, False) for x in bad]:
-            if k == "pv:ipaddress":
-                got = bool(validate.valid_ipv4(v) or validate.valid_ipv6(v))
-            elif k == "pv:domainname":
-                got = not isinstance(call(validate.valid_domain_name, v), Exn)
-            else:
-                r = call(validate.VALIDATOR[k], v)
-                got = not isinstance(r, Exn)
-                if isinstance(r, Exn) and r.name != "NotValid":
-                    ctx.oracle_fail("prim-raises:%s:%r:%s" % (k, v, r.name), "validator %s raised %s on %r" % (k, r.name, v), {"unit": "prim", "key": k, "value": v})
+            got = real_prim(k, v)
             ctx.count("prim-sample:" + k)
-            if got != exp:
+            if isinstance(got, Exn):
+                ctx.oracle_fail("prim-raises:%s:%r:%s" % (k, v, got.name), "validator %s raised %s on %r" % (k, got.name, v), {"unit": "prim", "key": k, "value": v})
+            elif got != exp:
                 ctx.oracle_fail("prim-sample:%s:%r" % (k, v), "validator %s %s the clear-cut %s sample %r" % (
                     k, "accepts" if got else "rejects", "valid" if exp else "invalid", v), {"unit": "prim", "key": k, "value": v})
-    # documented finding: the domain-name pattern matches no ordinary DNS name
+    ints, strs, langs, doms = _fmt_ints(ctx.rng), _fmt_strings(ctx.rng), _fmt_language(ctx.rng), _fmt_domain(ctx.rng)
+    pools = {k: ints for k in INT_RANGES}
+    for k in ("string", "anySimpleType", "normalizedString", "token", "NMTOKEN", "NMTOKENS"):
+        pools[k] = strs
+    pools["language"] = langs + strs[:12]
+    pools["pv:domainname"] = doms
+    pools["boolean"] = SAMPLES["boolean"][0] + SAMPLES["boolean"][1] + ["True", "FALSE", "fAlSe", "", "00", "01", "true ", "t", "1 ", "on"]
+    for k in ("ID", "NCName", "QName", "anyType"):
+        pools[k] = ["x", "", "a:b", "a:b:c", "1a", " "]
+    cases = []
+    for k, pool in pools.items():
+        if not k.startswith("pv:") and k not in validate.VALIDATOR:
+            continue
+        for v in list(dict.fromkeys(SAMPLES.get(k, ([], []))[0] + SAMPLES.get(k, ([], []))[1] + pool)):
+            got = real_prim(k, v)
+            cases.append(dict(id="prim:%s:%r" % (k, v), coq="(%s,%s)" % (cstr(k), cstr(v)), impl=got, show=dict(key=k, value=v)))
+            ctx.count("prim:%s:%s" % (k, "accepts" if got is True else "refuses" if got is False else got.name))
+            # the integer kinds have an independent statement: the XSD value space
+            if k in INT_RANGES and re.fullmatch(r"[+-]?[0-9]+", v):
+                lo, hi = INT_RANGES[k]
+                exp = (lo is None or lo <= int(v)) and (hi is None or int(v) <= hi)
+                ctx.nontriv(("prim", k, v))
+                if got is not exp:
+                    ctx.oracle_fail("int-range:%s:%s" % (k, v), "validator %s %s %s (value space %s..%s)" % (k, "accepts" if got is True else "refuses", v, lo, hi),
+                                    {"unit": "prim", "key": k, "value": v})
+    for k in TABLE_KEYS:
+        for v in SAMPLES[k][0] + SAMPLES[k][1]:
+            cases.append(dict(id="prim:%s:%r" % (k, v), coq="(%s,%s)" % (cstr(k), cstr(v)), impl=real_prim(k, v), show=dict(key=k, value=v)))
+    corr_retry.correspond(ctx, "prim", IMPORTS, "fun p : str * str => VB (prim_of %s (fst p) (snd p))" % prim_table_coq(), "str * str", cases, shard=400, timeout=600)
+    # the repaired valid_domain_name on an ordinary host name, through the class that uses it
     from saml2_tophat import saml
     r = call(saml.SubjectLocality(dns_name="idp.example.org").verify)
     if isinstance(r, Exn):
-        ctx.oracle_fail("override:saml.SubjectLocality.dns_name", "SubjectLocality(dns_name='idp.example.org').verify() raises %s: valid_domain_name's pattern contains a literal '{ 1 }'" % r.name,
+        ctx.oracle_fail("override:saml.SubjectLocality.dns_name", "SubjectLocality(dns_name='idp.example.org').verify() raises %s" % r.name,
                         {"unit": "locality", "dns_name": "idp.example.org"})
 
 
+# ---------------------------------------------------------------- valid(typ, v) and validate_value_type
+def type_names(T):
+    names = []
+    for r in T.rows:
+        for a in r["attrs"]:
+            if a[2][0] == "N":
+                names.append(a[2][1])
+        if r["vtype"]:
+            names.append(r["vtype"][0])
+            if r["vtype"][2]:
+                names.append(r["vtype"][2])
+    return list(dict.fromkeys(names))
+
+
+def check_valid(ctx, T, B):
+    from saml2_tophat import validate
+    base = type_names(T) + list(T.validator_keys)
+    names = list(base)
+    for t in base:
+        loc = t.rsplit(":", 1)[-1]
+        names += [t.lower(), t.upper(), loc.capitalize(), "xs:" + loc, "xsd:" + loc, "md:" + loc, "a:b:" + loc, ":" + loc, loc + ":", loc + " ", " " + loc, loc + "x", loc[:-1]]
+    names += ["", "None", "none", ":", "xs:", "::", "unknownType", "tns:OperatorContentType", "string:integer", "integer:string", "xs:xs:boolean", "Boolean", "DATETIME", "positiveinteger"]
+    names = [n for n in dict.fromkeys(names) if all(ord(ch) < 128 for ch in n)]
+    cases = []
+    for t in names + [None]:
+        impl = [outcome(call(validate.valid, t, v)) for v in PROBES]
+        cases.append(dict(id="valid:%r" % (t,), coq=cstr(t or ""), impl=[obs(x) for x in impl], show=dict(typ=t)))
+        k = B.resolve(t)
+        ctx.count("valid:resolves-to:" + ("string-fallback" if k == "string" and (t or "").rsplit(":", 1)[-1].lower() != "string" else "named-validator"))
+        # the statement's reading, on the implementation: the type name selects THAT validator, no KeyError
+        exp = [True if real_prim(k, v) is True else Exn("NotValid") for v in PROBES]
+        if t in base or t is None:
+            ctx.nontriv(("valid", t))
+            if [x is True for x in impl] != [x is True for x in exp]:
+                i = next(j for j in range(len(PROBES)) if (impl[j] is True) != (exp[j] is True))
+                ctx.oracle_fail("type-name:%s" % t, "valid(%r, %r) -> %r, but the validator of %s gives %r" % (t, PROBES[i], impl[i], k, exp[i]),
+                                {"unit": "valid", "typ": t, "value": PROBES[i]})
+    model = "fun t : str => VL (map (fun v => %s (valid (prim_of %s) validator_keys t v)) %s)" % (SHOW, prim_table_coq(), "[" + ";".join(cstr(v) for v in PROBES) + "]")
+    corr_retry.correspond(ctx, "valid", IMPORTS, model, "str", cases, shard=200, timeout=600)
+
+
+def vt_coq(vt):
+    base, en, member, maxlen = vt
+    return "(VT %s %s %s %s)" % (cstr(base), "None" if en is None else "(Some [%s])" % ";".join(cstr(e) for e in en),
+                                 "None" if member is None else "(Some %s)" % cstr(member), "None" if maxlen is None else "(Some (%d)%%Z)" % maxlen)
+
+
+def vt_spec(vt):
+    base, en, member, maxlen = vt
+    d = {"base": base}
+    if en is not None:
+        d["enumeration"] = list(en)
+    if member is not None:
+        d["member"] = member
+    if maxlen is not None:
+        d["maxlen"] = str(maxlen)
+    return d
+
+
+def check_vvt(ctx, T, B):
+    from saml2_tophat import validate
+    vts = []
+    for r in T.rows:
+        if r["vtype"]:
+            b, en, mem, ml = r["vtype"]
+            vts.append((b, tuple(en) if en is not None else None, mem, ml))
+    declared = list(dict.fromkeys(vts))
+    synth = [("string", ("a", "b"), None, None), ("xs:NMTOKEN", ("a", "b"), None, None), ("anyURI", ("urn:a",), None, None), ("unknown", ("a",), None, None),
+             ("list", ("a,b", "c"), "string", None), ("string", ("a",), None, 1), ("integer", None, None, 2), ("string", None, None, 0),
+             ("list", None, "integer", None), ("list", None, "positiveInteger", None), ("list", None, "xs:boolean", None), ("list", None, None, None),
+             ("list", None, "unknownType", None), ("String", None, None, None), ("xs:string", None, None, None), ("LIST", None, "integer", None),
+             ("positiveInteger", None, None, None), ("xs:unsignedByte", None, None, None), ("datetime", None, None, None), ("NMTOKENS", None, None, None),
+             ("", None, None, None), ("md:entityIDType", None, None, None), ("string", (), None, None)]
+    cases = []
+    for vt in declared + synth:
+        base, en, member, maxlen = vt
+        good, bad, checked = B.samples_for_vtype((base, list(en) if en is not None else None, member, maxlen)) if (en is None or en) else (["x"], ["y"], True)
+        values = list(good) + list(bad)
+        if en is not None:
+            values += list(en) + [e.upper() for e in en[:2]] + [" " + e for e in en[:1]] + [e + " " for e in en[:1]] + ["", ",".join(en[:2])]
+        if base.lower() == "list":
+            values += ["", ",", "1,,2", " 1 ,\t2\n", "1, x", "x ,1", "1;2", "true , false", "0"]
+        values += ["x", "\x01"]
+        spec = vt_spec(vt)
+        for v in dict.fromkeys(values):
+            r = call(validate.validate_value_type, v, spec)
+            impl = r if isinstance(r, Exn) else True
+            cases.append(dict(id="vvt:%r:%r" % (vt, v), coq="(%s,%s)" % (cstr(v), vt_coq(vt)), impl=obs(impl), show=dict(spec=spec, value=v)))
+            ctx.count("vvt:%s" % (impl.name if isinstance(impl, Exn) else "accepted"))
+            if en is not None and maxlen is None:
+                ctx.nontriv(("vvt", vt, v))
+                if (v in en) != (impl is True):
+                    ctx.oracle_fail("enum-not-enforced:%s:%s" % (base, "in" if v in en else "out"),
+                                    "validate_value_type(%r, %r) -> %r" % (v, spec, impl), {"unit": "vvt", "spec": spec, "value": v})
+    # values of table-backed types outside the sample table have no model verdict: keep only those the table knows
+    tab = prim_table()
+    keep = []
+    for c in cases:
+        sp, v = c["show"]["spec"], c["show"]["value"]
+        if "enumeration" in sp or "maxlen" in sp:
+            keep.append(c)
+            continue
+        if sp["base"] == "list":
+            k = B.resolve(sp.get("member")) if sp.get("member") is not None else None
+            parts = [x.strip() for x in v.split(",")]
+        else:
+            k, parts = B.resolve(sp["base"]), [v]
+        if k in TABLE_KEYS and not all((k, x) in tab for x in parts):
+            continue
+        keep.append(c)
+    model = "fun p : str * vtype => %s (validate_value_type (prim_of %s) validator_keys (fst p) (snd p))" % (SHOW, prim_table_coq())
+    corr_retry.correspond(ctx, "vvt", IMPORTS, model, "str * vtype", keep, shard=300, timeout=600)
+
+
+# ---------------------------------------------------------------- table obligations, replayed
 def kernel_lists(ctx):
-    out = core.eval_model(ctx.prop, IMPORTS, ["unresolved_attr_types validator_keys actual_schema", "unenforced_enums actual_schema",
-                                              "unresolved_vtypes validator_keys actual_schema", "unknown_overrides actual_schema"], timeout=300)
-    if len(out) < 4 or out[0].startswith("coqc failed"):
-        ctx.broken.append(("model-evaluation:kernel_lists", (out or ["?"])[0][-600:]))
-        return [], [], [], []
-    pairs = [(int(a), int(b)) for a, b in re.findall(r"\(\s*(\d+)\s*,\s*(\d+)\s*\)", out[0])]
+    out = core.eval_model(ctx.prop, IMPORTS + " Proofs.Validate_table", [
+        "unresolved_attr_types validator_keys actual_schema", "unenforced_enums actual_schema",
+        "unresolved_vtypes validator_keys actual_schema", "unknown_overrides actual_schema",
+        "(List.length (unresolved_attr_types_before_fix KEYS_BEFORE_FIX actual_schema), List.length (unenforced_enums_before_fix actual_schema))"], timeout=300)
+    if len(out) < 5 or out[0].startswith("coqc failed"):
+        # Proofs.Validate_table does not build when an obligation fails: evaluate without it
+        out = core.eval_model(ctx.prop, IMPORTS, [
+            "unresolved_attr_types validator_keys actual_schema", "unenforced_enums actual_schema",
+            "unresolved_vtypes validator_keys actual_schema", "unknown_overrides actual_schema"], timeout=300)
+        if len(out) < 4 or out[0].startswith("coqc failed"):
+            ctx.broken.append(("model-evaluation:kernel_lists", (out or ["?"])[0][-600:]))
+            return [], [], [], []
+    pairs = [(int(a), int(b)) for a, b in re.findall(r"\(\s*(\d+)\s*,\s*(\d+)\s*\)", out[0].split(":")[0])]
     nums = lambda s: [int(x) for x in re.findall(r"\d+", s.split(":")[0])]
+    if len(out) >= 5:
+        m = re.findall(r"\d+", out[4].split(":")[0])
+        ctx.extra["before_the_repairs"] = {"attribute_types_valid_could_not_resolve": int(m[0]), "enumerations_never_tested": int(m[1])} if len(m) >= 2 else out[4]
     return pairs, nums(out[1]), nums(out[2]), nums(out[3])
 
 
@@ -307,21 +687,27 @@ def key_unresolved(T, cid, member, typ):
 
 
 def replay_lists(ctx, T, B, lists):
-    """every row the kernel lists is shown on the implementation"""
+    """every row the kernel lists is shown on the implementation: a valid value of the declared type
+    must pass, an invalid one must be refused"""
     from saml2_tophat.validate import valid_instance
     pairs, enums, vtypes, unknown = lists
     for cid, xml in pairs:
         a = [x for x in T.rows[cid]["attrs"] if x[0] == xml][0]
         member, typ = T.names[a[1]], (a[2][1] if a[2][0] == "N" else None)
-        o = B.minimal(cid)
-        setattr(o, member, "x")
-        r = call(valid_instance, o)
+        good, bad, _chk = B.samples_for_attr(a[2])
         key = key_unresolved(T, cid, member, typ)
-        if isinstance(r, Exn) and r.name in ("KeyError", "AttributeError"):
-            ctx.oracle_fail(key, "%s with %s='x' (declared type %r, not a VALIDATOR key): valid_instance raises %s" % (T.qname[cid], member, typ, r.name),
-                            {"unit": "unresolved-type", "class": T.qname[cid], "member": member, "value": "x"})
-        else:
-            ctx.broken.append(("C13_types_resolve:" + key, "kernel lists the pair as unresolvable but valid_instance gave %r" % (r,)))
+        shown = False
+        for v, want_ok in [(good[0], True)] + [(b, False) for b in bad[:1]]:
+            o = B.minimal(cid)
+            setattr(o, member, v)
+            r = call(valid_instance, o)
+            if isinstance(r, Exn) == want_ok:
+                ctx.oracle_fail(key, "%s with %s=%r (declared type %r): valid_instance -> %r" % (T.qname[cid], member, v, typ, outcome(r)),
+                                {"unit": "unresolved-type", "class": T.qname[cid], "member": member, "value": v})
+                shown = True
+                break
+        if not shown:
+            ctx.broken.append(("C13_types_resolve:" + key, "the kernel lists the pair as not resolving to the validator of its type; no failing value among the samples"))
         ctx.count("replayed:unresolved-type")
     for cid in enums:
         vt = T.rows[cid]["vtype"]
@@ -339,37 +725,280 @@ def replay_lists(ctx, T, B, lists):
         ctx.count("replayed:enum")
     for cid in vtypes:
         vt = T.rows[cid]["vtype"]
-        o = B.minimal(cid)
-        o.text = "x"
-        r = call(valid_instance, o)
+        good, bad, _chk = B.samples_for_vtype(vt)
         key = "unresolved-vtype:%s:%s" % (T.qname[cid], vt[0])
-        if isinstance(r, Exn) and r.name == "KeyError":
-            ctx.oracle_fail(key, "%s text 'x' (value type base %r is not a VALIDATOR key): valid_instance raises KeyError" % (T.qname[cid], vt[0]),
-                            {"unit": "vtype", "class": T.qname[cid]})
-        else:
-            ctx.broken.append(("C13_types_resolve:" + key, "kernel lists the base as unresolvable but valid_instance gave %r" % (r,)))
+        shown = False
+        for v, want_ok in [(good[0], True)] + [(b, False) for b in bad[:1]]:
+            o = B.minimal(cid)
+            o.text = v
+            r = call(valid_instance, o)
+            if isinstance(r, Exn) == want_ok:
+                ctx.oracle_fail(key, "%s text %r (value type base %r): valid_instance -> %r" % (T.qname[cid], v, vt[0], outcome(r)),
+                                {"unit": "vtype", "class": T.qname[cid], "value": v})
+                shown = True
+                break
+        if not shown:
+            ctx.broken.append(("C13_value_types_resolve:" + key, "the kernel lists the base as not resolving; no failing value among the samples"))
     for cid in unknown:
         ctx.oracle_fail("unknown-verify-override:%s" % T.qname[cid], "class %s overrides verify() (owner %s): not one of the five modelled overrides" % (
             T.qname[cid], T.rows[cid]["verify"]), {"unit": "override", "class": T.qname[cid]})
 
 
+# ---------------------------------------------------------------- what the SAML 2.0 schemas themselves impose
+# (class, member, kind): required = use="required"; a type kind = an invalid lexical value must be refused;
+# min1 = the child member needs at least one element.  From saml-schema-assertion/protocol/metadata-2.0.xsd.
+_MSG = ["samlp.Response", "samlp.AuthnRequest", "samlp.LogoutRequest", "samlp.LogoutResponse", "samlp.ArtifactResolve", "samlp.ArtifactResponse",
+        "samlp.AttributeQuery", "samlp.AuthnQuery", "samlp.AuthzDecisionQuery", "samlp.ManageNameIDRequest", "samlp.ManageNameIDResponse",
+        "samlp.NameIDMappingRequest", "samlp.NameIDMappingResponse", "samlp.AssertionIDRequest", "saml.Assertion"]
+SPEC_ANCHORS = [(c, m, "required") for c in _MSG for m in ("id", "version", "issue_instant")] + \
+    [(c, "issue_instant", "dateTime") for c in _MSG] + [
+    ("saml.Conditions", "not_before", "dateTime"), ("saml.Conditions", "not_on_or_after", "dateTime"),
+    ("saml.SubjectConfirmation", "method", "required"),
+    ("saml.SubjectConfirmationData", "not_before", "dateTime"), ("saml.SubjectConfirmationData", "not_on_or_after", "dateTime"),
+    ("saml.AuthnStatement", "authn_instant", "required"), ("saml.AuthnStatement", "authn_instant", "dateTime"),
+    ("saml.AuthnStatement", "session_not_on_or_after", "dateTime"),
+    ("saml.Attribute", "name", "required"),
+    ("saml.AuthzDecisionStatement", "resource", "required"), ("saml.AuthzDecisionStatement", "decision", "required"),
+    ("saml.AuthzDecisionStatement", "decision", "enum"), ("saml.AuthzDecisionStatement", "action", "min1"),
+    ("saml.Action", "namespace", "required"),
+    ("saml.ProxyRestriction", "count", "nonNegativeInteger"),
+    ("saml.AudienceRestriction", "audience", "min1"),
+    ("samlp.StatusCode", "value", "required"),
+    ("samlp.AuthnRequest", "force_authn", "boolean"), ("samlp.AuthnRequest", "is_passive", "boolean"),
+    ("samlp.AuthnRequest", "assertion_consumer_service_index", "unsignedShort"), ("samlp.AuthnRequest", "attribute_consuming_service_index", "unsignedShort"),
+    ("samlp.LogoutRequest", "not_on_or_after", "dateTime"),
+    ("samlp.NameIDPolicy", "allow_create", "boolean"),
+    ("samlp.RequestedAuthnContext", "comparison", "enum"),
+    ("samlp.Scoping", "proxy_count", "nonNegativeInteger"),
+    ("samlp.IDPEntry", "provider_id", "required"), ("samlp.IDPList", "idp_entry", "min1"),
+    ("samlp.AssertionIDRequest", "assertion_id_ref", "min1"), ("samlp.AuthzDecisionQuery", "action", "min1"),
+    ("samlp.AuthzDecisionQuery", "resource", "required"),
+    ("md.EntityDescriptor", "entity_id", "required"), ("md.EntityDescriptor", "valid_until", "dateTime"), ("md.EntityDescriptor", "cache_duration", "duration"),
+    ("md.EntitiesDescriptor", "valid_until", "dateTime"), ("md.EntitiesDescriptor", "cache_duration", "duration"),
+    ("md.SPSSODescriptor", "protocol_support_enumeration", "required"), ("md.SPSSODescriptor", "authn_requests_signed", "boolean"),
+    ("md.SPSSODescriptor", "want_assertions_signed", "boolean"), ("md.SPSSODescriptor", "assertion_consumer_service", "min1"),
+    ("md.SPSSODescriptor", "valid_until", "dateTime"), ("md.SPSSODescriptor", "cache_duration", "duration"),
+    ("md.IDPSSODescriptor", "protocol_support_enumeration", "required"), ("md.IDPSSODescriptor", "want_authn_requests_signed", "boolean"),
+    ("md.IDPSSODescriptor", "single_sign_on_service", "min1"),
+    ("md.AttributeAuthorityDescriptor", "attribute_service", "min1"), ("md.AuthnAuthorityDescriptor", "authn_query_service", "min1"),
+    ("md.PDPDescriptor", "authz_service", "min1"), ("md.AffiliationDescriptor", "affiliate_member", "min1"),
+    ("md.AffiliationDescriptor", "affiliation_owner_id", "required"),
+    ("md.AssertionConsumerService", "binding", "required"), ("md.AssertionConsumerService", "location", "required"),
+    ("md.AssertionConsumerService", "index", "required"), ("md.AssertionConsumerService", "index", "unsignedShort"),
+    ("md.AssertionConsumerService", "is_default", "boolean"),
+    ("md.ArtifactResolutionService", "index", "required"), ("md.ArtifactResolutionService", "index", "unsignedShort"),
+    ("md.SingleSignOnService", "binding", "required"), ("md.SingleSignOnService", "location", "required"),
+    ("md.SingleLogoutService", "binding", "required"), ("md.SingleLogoutService", "location", "required"),
+    ("md.KeyDescriptor", "use", "enum"),
+    ("md.RequestedAttribute", "name", "required"), ("md.RequestedAttribute", "is_required", "boolean"),
+    ("md.AttributeConsumingService", "index", "required"), ("md.AttributeConsumingService", "index", "unsignedShort"),
+    ("md.AttributeConsumingService", "is_default", "boolean"),
+    ("md.AttributeConsumingService", "service_name", "min1"), ("md.AttributeConsumingService", "requested_attribute", "min1"),
+    ("md.ContactPerson", "contact_type", "required"), ("md.ContactPerson", "contact_type", "enum"),
+    ("md.Organization", "organization_name", "min1"), ("md.Organization", "organization_display_name", "min1"), ("md.Organization", "organization_url", "min1"),
+    ("md.AdditionalMetadataLocation", "namespace", "required"),
+]
+ANCHOR_BAD = {"dateTime": ["yesterday", "2020-13-45T00:00:00Z"], "boolean": ["maybe", "2"], "unsignedShort": ["65536", "-1", "x"], "nonNegativeInteger": ["-1", "x"],
+              "duration": ["1 hour"], "enum": ["not-in-enumeration"]}
+ANCHOR_GOOD = {"dateTime": "2020-01-01T00:00:00Z", "boolean": "true", "unsignedShort": "65535", "nonNegativeInteger": "0", "duration": "PT1H"}
+
+
+def check_anchors(ctx, T, B):
+    from saml2_tophat.validate import valid_instance
+    for qn, member, kind in SPEC_ANCHORS:
+        key = "spec-anchor:%s.%s:%s" % (qn, member, kind)
+        if qn not in T.qname or member not in T.intern:
+            ctx.oracle_fail(key, "class %s / member %s of the SAML 2.0 schemas does not exist in the tables" % (qn, member), {"unit": "anchor", "class": qn, "member": member, "kind": kind})
+            continue
+        cid = T.qname.index(qn)
+        tries = []
+        if kind == "required":
+            tries = [(None, False), ("", False)]
+        elif kind == "min1":
+            tries = [([], False)]
+        else:
+            tries = [(v, False) for v in ANCHOR_BAD[kind]] + ([(ANCHOR_GOOD[kind], True)] if kind in ANCHOR_GOOD else [])
+        base = call(valid_instance, B.minimal(cid))
+        if isinstance(base, Exn):
+            ctx.oracle_fail("spec-anchor:%s:minimal" % qn, "the minimal instance of %s is refused (%s)" % (qn, base.name), {"unit": "anchor", "class": qn, "member": None, "kind": "minimal"})
+            continue
+        for v, want_ok in tries:
+            o = B.minimal(cid)
+            setattr(o, member, v)
+            r = call(valid_instance, o)
+            ctx.count("spec-anchor:" + kind)
+            ctx.nontriv(("anchor", qn, member, kind, v))
+            if isinstance(r, Exn) == want_ok:
+                ctx.oracle_fail(key, "%s with %s=%r: valid_instance -> %r although the SAML 2.0 schema declares %s %s" % (
+                    qn, member, v, outcome(r), member, kind), {"unit": "anchor", "class": qn, "member": member, "kind": kind, "value": v})
+                break
+
+
+def check_examples(ctx, T):
+    """the objects behind c13_ex_valid / c13_ex_violated of Gen/SchemaTables.v, on the implementation"""
+    from saml2_tophat.validate import valid_instance
+    good, bad = translate_schema.c13_examples(T)
+    for i, o in enumerate(good):
+        r = call(valid_instance, o)
+        if isinstance(r, Exn):
+            ctx.oracle_fail("example-valid:%d" % i, "the valid example %s is refused: %s" % (type(o).__name__, r.name), {"unit": "example", "valid": True, "index": i})
+    for i, (label, o) in enumerate(bad):
+        r = call(valid_instance, o)
+        ctx.nontriv(("example", label))
+        if not isinstance(r, Exn):
+            ctx.oracle_fail("example-violated:%s" % label, "accepted although: %s" % label, {"unit": "example", "valid": False, "index": i})
+        ctx.count("example:%s" % (r.name if isinstance(r, Exn) else "accepted"))
+
+
+# ---------------------------------------------------------------- the call sites: every received message is validated
+def _entry_response():
+    import resp
+    from saml2_tophat import saml, samlp
+    spec = resp.default_response()
+    a = resp._assertion(spec["assertions"][0])
+    return samlp.Response(id=spec["id"], in_response_to=spec["in_response_to"], version=spec["version"], issue_instant=spec["issue_instant"],
+                          destination=spec["destination"], issuer=saml.Issuer(text=spec["issuer"]), status=resp._status(spec["status"]), assertion=[a])
+
+
+def _entry_request():
+    import env
+    from saml2_tophat import saml, samlp
+    return samlp.AuthnRequest(id="rq-1", version="2.0", issue_instant=env.ts(env.NOW), issuer=saml.Issuer(text=env.SP_ID),
+                              assertion_consumer_service_url=env.SP_ACS_POST, force_authn="false",
+                              name_id_policy=samlp.NameIDPolicy(allow_create="true", format=saml.NAMEID_FORMAT_TRANSIENT))
+
+
+def _set(path, value):
+    def f(o):
+        *head, last = path
+        for step in head:
+            o = getattr(o, step) if isinstance(step, str) else o[step]
+        setattr(o, last, value)
+    return f
+
+
+def entry_variants():
+    from saml2_tophat import saml, samlp
+    A = ("assertion", 0)
+    R = [("response: AuthnStatement without AuthnInstant (required)", _set(A + ("authn_statement", 0, "authn_instant"), None)),
+         ("response: Attribute without Name (required)", _set(A + ("attribute_statement", 0, "attribute", 0, "name"), None)),
+         ("response: Assertion Version empty (required)", _set(A + ("version",), "")),
+         ("response: Assertion without ID (required)", _set(A + ("id",), None)),
+         ("response: Response without ID (required)", _set(("id",), None)),
+         ("response: SubjectLocality Address is no IP address", _set(A + ("authn_statement", 0, "subject_locality"), saml.SubjectLocality(address="nonsense"))),
+         ("response: SubjectLocality DNSName is no host name", _set(A + ("authn_statement", 0, "subject_locality"), saml.SubjectLocality(dns_name="x y"))),
+         ("response: two OneTimeUse conditions", _set(A + ("conditions", "one_time_use"), [saml.OneTimeUse(), saml.OneTimeUse()])),
+         ("response: AuthnContext with declaration and declaration reference",
+          lambda o: (_set(A + ("authn_statement", 0, "authn_context", "authn_context_decl"), saml.AuthnContextDecl(text="d"))(o),
+                     _set(A + ("authn_statement", 0, "authn_context", "authn_context_decl_ref"), saml.AuthnContextDeclRef(text="urn:r"))(o))),
+         ("response: AudienceRestriction without Audience (min 1)", _set(A + ("conditions", "audience_restriction", 0, "audience"), [])),
+         ("response: SubjectConfirmationData NotBefore is no dateTime", _set(A + ("subject", "subject_confirmation", 0, "subject_confirmation_data", "not_before"), "yesterday")),
+         ("response: Conditions NotBefore is no dateTime", _set(A + ("conditions", "not_before"), "yesterday")),
+         ("response: StatusCode without Value (required)", _set(("status", "status_code", "value"), None)),
+         ("response: ProxyRestriction Count is negative", _set(A + ("conditions", "proxy_restriction"), [saml.ProxyRestriction(count="-1")]))]
+    Q = [("request: ForceAuthn is no boolean", _set(("force_authn",), "maybe")),
+         ("request: IsPassive is no boolean", _set(("is_passive",), "2")),
+         ("request: AssertionConsumerServiceIndex is no unsignedShort", _set(("assertion_consumer_service_index",), "65536")),
+         ("request: AttributeConsumingServiceIndex is no unsignedShort", _set(("attribute_consuming_service_index",), "-1")),
+         ("request: without ID (required)", _set(("id",), None)),
+         ("request: NameIDPolicy AllowCreate is no boolean", _set(("name_id_policy", "allow_create"), "perhaps")),
+         ("request: RequestedAuthnContext Comparison outside its enumeration",
+          _set(("requested_authn_context",), samlp.RequestedAuthnContext(comparison="bogus", authn_context_class_ref=[saml.AuthnContextClassRef(text=saml.AUTHN_PASSWORD)]))),
+         ("request: Scoping ProxyCount is negative", _set(("scoping",), samlp.Scoping(proxy_count="-1"))),
+         ("request: IDPList without IDPEntry (min 1)", _set(("scoping",), samlp.Scoping(idp_list=samlp.IDPList())))]
+    return R, Q
+
+
+def run_entry(kind, o):
+    """the message through the public entry point: True = handed over / identity returned"""
+    import base64
+    import env
+    import resp
+    from saml2_tophat import BINDING_HTTP_POST
+    with env.Clock(env.NOW):
+        if kind == "response":
+            got = resp.observe(env.make_sp(), str(o))
+            return True if isinstance(got, list) else got
+        got = call(env.make_idp().parse_authn_request, base64.b64encode(str(o).encode()).decode(), BINDING_HTTP_POST)
+        return got if isinstance(got, Exn) or got is None else True
+
+
+def check_entry(ctx):
+    """Saml2Client.parse_authn_request_response / Server.parse_authn_request run valid_instance on what they
+    parsed (response.py _postamble, request.py _loads): a message with one violated constraint is not accepted"""
+    import env
+    import saml2_tophat.request as rq_mod
+    import saml2_tophat.response as rs_mod
+    env.tool_inprocess(True)
+    R, Q = entry_variants()
+    for kind, mk, variants in (("response", _entry_response, R), ("request", _entry_request, Q)):
+        base = run_entry(kind, mk())
+        if base is not True:
+            ctx.broken.append(("entry:%s" % kind, "the unviolated %s is not accepted by the entry point (%r): the entry-point oracle cannot run" % (kind, base)))
+            continue
+        only_guard = 0
+        for label, mut in variants:
+            o = mk()
+            mut(o)
+            if not isinstance(call(o.verify), Exn):
+                ctx.broken.append(("entry:" + label, "harness: the variant is not a violation for obj.verify()"))
+                continue
+            got = run_entry(kind, o)
+            ctx.count("entry:%s:%s" % (kind, "accepted" if got is True else "refused"))
+            ctx.nontriv(("entry", label))
+            if got is True:
+                ctx.oracle_fail("entry-accepted:" + label, "%s is accepted by the %s entry point" % (label, "SP" if kind == "response" else "IdP"),
+                                {"unit": "entry", "kind": kind, "label": label, "xml": str(o)})
+            # is validation the only guard for this variant?  (patched in THIS process only)
+            mod = rs_mod if kind == "response" else rq_mod
+            keep = mod.valid_instance
+            mod.valid_instance = lambda inst: True
+            try:
+                if run_entry(kind, o) is True:
+                    only_guard += 1
+            finally:
+                mod.valid_instance = keep
+        ctx.extra.setdefault("entry_variants_where_validation_is_the_only_guard", {})[kind] = "%d of %d" % (only_guard, len(variants))
+        if only_guard == 0:
+            ctx.notes.append("entry-point oracle (%s): every variant is also refused by a later check - it does not isolate the valid_instance call" % kind)
+
+
+# ---------------------------------------------------------------- the run
 def run(ctx):
     from saml2_tophat.validate import valid_instance
+    import time
+    timing = ctx.extra.setdefault("timing_s", {})
+    t0 = [time.time()]
+
+    def lap(name):
+        timing[name] = round(time.time() - t0[0], 1)
+        t0[0] = time.time()
     T = translate_schema.tables()
     B = Builder(T, ctx.rng)
     check_prims(ctx)
+    lap("prim")
+    check_valid(ctx, T, B)
+    lap("valid")
+    check_vvt(ctx, T, B)
+    lap("vvt")
+    check_examples(ctx, T)
+    check_anchors(ctx, T, B)
+    lap("examples+anchors")
+    check_entry(ctx)
+    lap("entry")
     lists = kernel_lists(ctx)
+    lap("kernel_lists")
     ctx.extra["kernel_lists"] = {"unresolved_attr_types": len(lists[0]), "unenforced_enums": len(lists[1]),
                                  "unresolved_vtypes": len(lists[2]), "unknown_overrides": len(lists[3])}
     replay_lists(ctx, T, B, lists)
     unresolved_attr = {(c, x) for c, x in lists[0]}
     enum_classes, vtype_classes = set(lists[1]), set(lists[2])
 
-    vi_cases, ver_cases = [], []
+    vi_cases, ver_cases, spec_cases = [], [], []
     per_class = {}
 
     def touched(o, root=True):
-        """keys of the recorded table defects this object tree runs into, in validation order"""
+        """keys of the table defects (rows the kernel lists) this object tree runs into, in validation order"""
         cid = T.cid[type(o)]
         row = T.rows[cid]
         out = []
@@ -386,69 +1015,132 @@ def run(ctx):
                 out.append("enum-not-enforced:%s" % T.qname[t[1]])
             if t[0] == "C" and t[1] in vtype_classes:
                 out.append("unresolved-vtype:%s:%s" % (T.qname[t[1]], T.rows[t[1]]["vtype"][0]))
-        if not root and row["verify"] == "saml.SubjectLocality" and getattr(o, "dns_name", None) and not getattr(o, "address", None):
-            out.append("override:saml.SubjectLocality.dns_name")
         for _m, l in schema_gen._kids(T, o, row):
             for k in l:
                 out += touched(k, False)
         return out
 
-    def add(o, cid, kind, member, violated, nest):
+    def add(o, cid, kind, member, violated, nest, idx):
         qn = T.qname[cid]
         coq = obj_to_coq(T, o)
         r = outcome(call(valid_instance, o))
-        show = dict(cls=T.qname[T.cid[type(o)]], violated_class=qn, kind=kind, member=member, nest=nest)
-        vi_cases.append(dict(id="%s:%s:%s:%s" % (qn, kind, member, nest), coq=coq, impl=r, show=show))
+        show = dict(cls=T.qname[T.cid[type(o)]], violated_class=qn, kind=kind, member=member, nest=nest, idx=idx)
+        cid_ = "%s:%s:%s:%d:%s" % (qn, kind, member, idx, nest)
+        claim = 9 if violated is None else 1 if violated else 0
+        vi_cases.append(dict(id=cid_, coq="(%s,(%d)%%Z)" % (coq, claim), impl=[obs(r), claim], show=show))
         if T.rows[T.cid[type(o)]]["verify"] or nest == "root" and kind.startswith(("override", "av")):
             r2 = outcome(call(o.verify))
-            ver_cases.append(dict(id="verify:%s:%s:%s:%s" % (qn, kind, member, nest), coq=coq, impl=r2, show=show))
-        ctx.count("%s:%s" % (kind if not kind.startswith("override") else "override", r.name if isinstance(r, Exn) else "accepted"))
+            ver_cases.append(dict(id="verify:" + cid_, coq=coq, impl=obs(r2), show=show))
+        if violated is not None:
+            spec_cases.append(cid_)
+        ctx.count("%s:%s" % (kind.split(":")[0] if not kind.startswith("override") else "override", r.name if isinstance(r, Exn) else "accepted"))
+        rep = {"unit": "variant", "class": qn, "kind": kind, "member": member, "nest": nest, "idx": idx, "xml": schema_gen.describe(T, o, 1500)}
         # the property itself, on the implementation
         if violated is True:
             ctx.nontriv((qn, kind, member, nest, coq))
             if r is True:
                 ctx.oracle_fail("not-rejected:%s:%s.%s" % (kind, qn, member),
-                                "%s: %s of %s.%s (%s) is accepted by valid_instance" % (nest, kind, qn, member, T.qname[T.cid[type(o)]]),
-                                {"unit": "variant", "class": qn, "kind": kind, "member": member, "nest": nest, "xml": schema_gen.describe(T, o, 1500)})
+                                "%s: %s of %s.%s (%s) is accepted by valid_instance" % (nest, kind, qn, member, T.qname[T.cid[type(o)]]), rep)
         elif violated is False and isinstance(r, Exn):
             tk = touched(o) if r.name in ("KeyError", "AttributeError", "ValueError") else []
             ctx.oracle_fail((tk[0] if tk else None) or "valid-rejected:%s:%s.%s:%s" % (kind, qn, member, r.name),
-                            "%s: %s of %s.%s (%s) satisfies the declared constraints but valid_instance raises %s" % (nest, kind, qn, member, T.qname[T.cid[type(o)]], r.name),
-                            {"unit": "variant", "class": qn, "kind": kind, "member": member, "nest": nest, "xml": schema_gen.describe(T, o, 1500)})
+                            "%s: %s of %s.%s (%s) satisfies the declared constraints but valid_instance raises %s" % (nest, kind, qn, member, T.qname[T.cid[type(o)]], r.name), rep)
         return r
 
     for cid in range(len(T.classes)):
         vs = B.variants(cid)
         per_class[cid] = vs
-        for kind, member, violated, o in vs:
-            add(o, cid, kind, member, violated, "root")
+        for idx, (kind, member, violated, o) in enumerate(vs):
+            add(o, cid, kind, member, violated, "root", idx)
+            # the same with content validation does not look at: text of a class without value type, foreign attributes
+            if not T.rows[cid]["over"] and ctx.rng.random() < (0.35 if ctx.quick else 1.0):
+                add(decorate(T, o), cid, kind, member, violated, "root+decor", idx)
         if cid % 200 == 0:
             ctx.sample(dict(cls=T.qname[cid], variants=[(k, m) for k, m, _v, _o in vs][:12]))
+    # classes without a violated variant of their own get one with the violation further down,
+    # so that every class also occurs as an intermediate node above a violation
+    for cid in range(len(T.classes)):
+        if not any(v[2] is True for v in per_class[cid]):
+            d = B.deep_violated(cid, per_class)
+            if d is not None:
+                per_class[cid] = per_class[cid] + [("deep:" + d[0], "-", True, d[1])]
+                add(d[1], cid, "deep:" + d[0], "-", True, "root", len(per_class[cid]) - 1)
+                ctx.count("deep-variant-classes")
     # nested under each possible parent
     for cid, plist in sorted(B.parents.items()):
         vs = per_class[cid]
-        viol = [v for v in vs if v[2] is True]
+        viol = [i for i, v in enumerate(vs) if v[2] is True]
         for (pid, m, islist) in plist:
             prow = T.rows[pid]
             if prow["over"] or m in prow["missing"]:
                 continue
             if ctx.quick:
-                chosen = ([ctx.rng.choice(viol)] if viol else []) + [vs[0]]
+                chosen = ([ctx.rng.choice(viol)] if viol else []) + [0]
             else:
-                chosen = vs
-            mn = next((c[1] for c in prow["card"] if c[0] == m), None) or 0
-            for kind, member, violated, o in chosen:
-                p = B.minimal(pid)
-                sib = [B.minimal(cid, 4) for _ in range(max(mn - 1, 0))] if islist else []
-                setattr(p, T.names[m], (sib + [o]) if islist else o)
-                # the parent's own required attributes may sit on a recorded defect
-                add(p, cid, kind, member, violated, "under:%s.%s" % (T.qname[pid], T.names[m]))
-    ctx.extra["cases"] = {"valid_instance": len(vi_cases), "verify": len(ver_cases)}
-    corr_retry.correspond(ctx, "valid_instance", IMPORTS, model_expr("valid_instance"), "inst", vi_cases, shard=150, timeout=900)
+                chosen = range(len(vs))
+            for idx in chosen:
+                kind, member, violated, o = vs[idx]
+                for pos in (("first", "middle", "last") if islist and violated else ("last",)):
+                    p = B.nest(pid, m, islist, o, cid, pos)
+                    add(p, cid, kind, member, violated, "under:%s.%s:%s" % (T.qname[pid], T.names[m], pos), idx)
+    # random chains: a violated instance two levels below the root
+    rows = [(pid, m, islist, cid) for cid, plist in sorted(B.parents.items()) for (pid, m, islist) in plist
+            if not T.rows[pid]["over"] and m not in T.rows[pid]["missing"]]
+    made, want = 0, (400 if ctx.quick else 6000)
+    for _ in range(want * 20):
+        if made >= want:
+            break
+        pid, m, islist, cid = ctx.rng.choice(rows)
+        ups = [r for r in B.parents.get(pid, []) if not T.rows[r[0]]["over"] and r[1] not in T.rows[r[0]]["missing"]]
+        viol = [i for i, v in enumerate(per_class[cid]) if v[2] is True]
+        if not ups or not viol:
+            continue
+        gid, gm, glist = ctx.rng.choice(ups)
+        idx = ctx.rng.choice(viol)
+        kind, member, violated, o = per_class[cid][idx]
+        pos1, pos2 = ctx.rng.choice(["first", "middle", "last"]), ctx.rng.choice(["first", "middle", "last"])
+        mid = B.nest(pid, m, islist, o, cid, pos1)
+        top = B.nest(gid, gm, glist, mid, pid, pos2)
+        add(top, cid, kind, member, violated, "under:%s.%s:%s/under:%s.%s:%s" % (T.qname[pid], T.names[m], pos1, T.qname[gid], T.names[gm], pos2), idx)
+        ctx.count("chain-depth-2")
+        made += 1
+    lap("generate+implementation")
+    ctx.extra["cases"] = {"valid_instance": len(vi_cases), "verify": len(ver_cases), "spec": len(spec_cases)}
+    corr_retry.correspond(ctx, "valid_instance_spec", IMPORTS, vi_spec_expr(), "inst * Z", vi_cases, shard=250, timeout=900)
+    lap("model:valid_instance_spec")
     corr_retry.correspond(ctx, "verify", IMPORTS, model_expr("verify"), "inst", ver_cases, shard=150, timeout=900)
+    lap("model:verify")
+
+
+def _pretty(model):
+    """`VE [78; 111; ...]` as printed by Coq -> raises NotValid"""
+    t = (model or "?").split(": val")[0].strip()
+    return re.sub(r"VE\s*\[([0-9;\s]*)\](%N)?", lambda m: "raises " + "".join(chr(int(x)) for x in re.findall(r"\d+", m.group(1))), t)
+
+
+def cex_search(ctx):
+    """a model / implementation disagreement IS a concrete input: name it, so that the replay file carries it"""
+    for d in ctx.disagreements[:20]:
+        show = d.case.get("show") or {}
+        if d.unit in ("valid_instance_spec", "verify") and "kind" in show:
+            ctx.oracle_fail("disagreement:%s:%s:%s.%s" % (d.unit, show["violated_class"], show["kind"].split(":")[0], show["member"]),
+                            "%s of %s.%s (%s): the implementation gives %r, the verified model %s" % (
+                                show["kind"], show["violated_class"], show["member"], show["nest"], d.impl, _pretty(d.model)),
+                            {"unit": "variant", "class": show["violated_class"], "kind": show["kind"], "member": show["member"], "nest": show["nest"], "idx": show["idx"]})
+        elif d.unit == "prim":
+            ctx.oracle_fail("disagreement:prim:%s:%r" % (show["key"], show["value"]), "validator %s on %r: implementation %r, model %s" % (
+                show["key"], show["value"], d.impl, _pretty(d.model)), {"unit": "prim", "key": show["key"], "value": show["value"]})
+        elif d.unit == "valid":
+            i = 0
+            ctx.oracle_fail("disagreement:valid:%r" % (show["typ"],), "validate.valid(%r, v) over the probe values %r: implementation %r, model %s" % (
+                show["typ"], PROBES, d.impl, _pretty(d.model)[:400]), {"unit": "valid", "typ": show["typ"], "value": PROBES[i]})
+        elif d.unit == "vvt":
+            ctx.oracle_fail("disagreement:vvt:%r:%r" % (sorted(show["spec"].items()), show["value"]), "validate_value_type(%r, %r): implementation %r, model %s" % (
+                show["value"], show["spec"], d.impl, _pretty(d.model)), {"unit": "vvt", "spec": show["spec"], "value": show["value"]})
 
 
 def replay(ctx, payload):
+    from saml2_tophat import validate
     from saml2_tophat.validate import valid_instance
     T = translate_schema.regen(save=False)
     B = Builder(T, ctx.rng)
@@ -463,21 +1155,63 @@ def replay(ctx, payload):
     elif u in ("enum", "vtype"):
         cid = T.qname.index(inp["class"])
         vt = T.rows[cid]["vtype"]
-        for t in ([vt[1][0]] if vt[1] else ["x"]) + ["not-in-enumeration"]:
+        for t in ([inp["value"]] if "value" in inp else ([vt[1][0]] if vt[1] else ["x"]) + ["not-in-enumeration"]):
             o = B.minimal(cid)
             o.text = t
             print("valid_instance(%s text=%r) ->" % (inp["class"], t), outcome(call(valid_instance, o)))
     elif u == "locality":
         from saml2_tophat import saml
         print("SubjectLocality(dns_name=%r).verify() ->" % inp["dns_name"], outcome(call(saml.SubjectLocality(dns_name=inp["dns_name"]).verify)))
-    elif u == "variant" and inp.get("xml"):
-        import saml2_tophat
-        cls = None
-        for c in T.classes:
-            if inp["xml"].lstrip().startswith("<") and c.c_tag and ("%s" % c.c_tag) in inp["xml"][:120] and T.qname[T.cid[c]].split(".")[-1] == c.__name__:
-                pass
-        print("variant:", inp.get("class"), inp.get("kind"), inp.get("member"), inp.get("nest"))
-        print(inp["xml"][:1500])
+    elif u == "prim":
+        print("validator %s on %r ->" % (inp["key"], inp["value"]), real_prim(inp["key"], inp["value"]))
+    elif u == "valid":
+        print("validate.valid(%r, %r) ->" % (inp["typ"], inp["value"]), outcome(call(validate.valid, inp["typ"], inp["value"])))
+    elif u == "vvt":
+        print("validate.validate_value_type(%r, %r) ->" % (inp["value"], inp["spec"]), outcome(call(validate.validate_value_type, inp["value"], inp["spec"])))
+    elif u == "anchor":
+        cid = T.qname.index(inp["class"])
+        o = B.minimal(cid)
+        if inp.get("member"):
+            setattr(o, inp["member"], inp.get("value"))
+        print("valid_instance(%s minimal with %s=%r) ->" % (inp["class"], inp.get("member"), inp.get("value")), outcome(call(valid_instance, o)))
+    elif u == "example":
+        good, bad = translate_schema.c13_examples(T)
+        label, o = ("valid example", good[inp["index"]]) if inp["valid"] else bad[inp["index"]]
+        print(label)
+        print(schema_gen.describe(T, o, 3000))
+        print("valid_instance ->", outcome(call(valid_instance, o)))
+    elif u == "entry":
+        import env
+        env.tool_inprocess(True)
+        R, Q = entry_variants()
+        mk, variants = (_entry_response, R) if inp["kind"] == "response" else (_entry_request, Q)
+        o = mk()
+        dict(variants)[inp["label"]](o)
+        print(inp["label"])
+        print(str(o)[:3000])
+        print("obj.verify() ->", outcome(call(o.verify)), "; entry point ->", run_entry(inp["kind"], o))
+    elif u == "variant":
+        cid = T.qname.index(inp["class"])
+        per_class = {c: B.variants(c) for c in range(len(T.classes))}
+        vs = per_class[cid]
+        if inp["idx"] >= len(vs):
+            d = B.deep_violated(cid, per_class)
+            vs = vs + [("deep:" + d[0], "-", True, d[1])]
+        kind, member, violated, o = vs[inp["idx"]]
+        below = cid
+        for step in ([] if inp["nest"].startswith("root") else inp["nest"].split("/")):
+            _u, pm, pos = step.split(":")
+            pq, mname = pm.rsplit(".", 1)
+            pid = T.qname.index(pq)
+            m = T.intern[mname]
+            islist = next(c[3] for c in T.rows[pid]["children"] if c[1] == m)
+            o = B.nest(pid, m, islist, o, below, pos)
+            below = pid
+        if inp["nest"] == "root+decor":
+            o = decorate(T, o)
+        print("variant:", inp["class"], kind, member, inp["nest"], "violated =", violated)
+        print(schema_gen.describe(T, o, 3000))
+        print("valid_instance ->", outcome(call(valid_instance, o)))
     else:
         print("no concrete input in this replay file (broken obligation / correspondence): see its fields")
     return 0
